@@ -93,7 +93,10 @@ static carquet_status_t write_rows(carquet_writer_t* w, const hist_t* h, int ci,
         vals = ba;
     } else {
         uint8_t* f = mc_exact(NULL, (size_t)wd * (size_t)(nn ? nn : 1)); int k = 0; ref_str s;
-        for (int r = a; r < b; r++) { if (c->opt && ((h->mask[ci] >> r) & 1)) continue; tbl_value(c, ci, r, h->pattern, f + (size_t)k * (size_t)wd, &s); k++; }
+        for (int r = a; r < b; r++) { if (c->opt && ((h->mask[ci] >> r) & 1)) continue; tbl_value(c, ci, r, h->pattern, f + (size_t)k * (size_t)wd, &s);
+            /* value pattern 2 hands BOOLEAN trues to the writer as other non-zero bytes (0xFF, 2, 0x80): a C caller's "true" is any non-zero value; the table that must come back holds 1 */
+            if (c->ptype == PT_BOOLEAN && h->pattern == 2 && f[k]) { static const uint8_t TRUE_BYTES[] = { 0xFF, 0x02, 0x80, 0x01 }; f[k] = TRUE_BYTES[(r + ci) & 3]; }
+            k++; }
         vals = f;
     }
     const int16_t* dl = c->opt ? ((h->nodef && !anynull) ? NULL : def) : NULL;
